@@ -99,7 +99,11 @@ def replica_case(scn, rseed):
 
 
 def estimate(rundir, n_intf):
-    rows = M.parse_data_file(os.path.join(rundir, "infretis_data.txt"))
+    # the file this run wrote (infretis_data_1.txt if the directory already held an earlier run's file)
+    import tomli
+    with open(os.path.join(rundir, "restart.toml"), "rb") as fh:
+        dname = tomli.load(fh)["output"].get("data_file", "infretis_data.txt")
+    rows = M.parse_data_file(os.path.join(rundir, dname))
     num = np.zeros(n_intf - 1)
     den = np.zeros(n_intf - 1)
     for r in rows:
